@@ -22,6 +22,7 @@ macro_rules! dispatch {
             "C14" => $f(worlds::join::JoinWorld, $($arg),*),
             "C13" => $f(worlds::watermark::WatermarkWorld, $($arg),*),
             "C12" => $f(worlds::window::WindowWorld, $($arg),*),
+            "C20" => $f(worlds::store::StoreWorld, $($arg),*),
             other => {
                 eprintln!("no simulation world serves property {other}");
                 2
